@@ -154,6 +154,7 @@ def run(sc, tier, seed):
               ("WindowCountMC.tla", "WindowCount_quick.cfg" if q else "WindowCount_thorough.cfg")]
     if not q:
         models.append(("WindowRingMC.tla", "WindowRing_deep.cfg"))
+        models.append(("WindowBarrierMC.tla", "WindowBarrier_thorough.cfg"))   # growth: barrier messages (design level only)
 
     def design_level():
         per_model, results = {}, []
